@@ -99,7 +99,7 @@ def gen_case(r, k, same=None, long_=False):
     # inputPrefix: counts and gradients read from .count/.grad files before the first step
     if r.random() < 0.25:
         c["input"] = []       # one data set per prefix of the inputPrefix list
-        for _ in range(r.choice([1, 1, 2])):
+        for _ in range(r.choice([1, 1, 2, 3])):
             icnt = [r.choice([0, 0, 1, 2, 3, 5, 8]) for _ in range(nt)]
             c["input"].append({"cnt": icnt, "grad": [(V.dyadic(r, -4, 4, bits=2) if icnt[a] > 0 else 0.0) for a in range(nt) for _ in range(nd)]})
     # applyBias switched at run time (cv bias a set apply_force 0|1) before some steps
@@ -143,7 +143,10 @@ def gen_case(r, k, same=None, long_=False):
                     z = v["lower"] + r.randint(-1, v["nx"] + 1) * v["w"]
                 elif m < 0.88:   # inside the grid
                     z = v["lower"] + r.randint(0, v["nx"] * 8 - 1) * v["w"] / 8 + v["w"] / 16
-                else:            # outside
+                elif m < 0.92:   # just outside a boundary, by less than one bin (down to 1/1024 of a bin)
+                    dz = v["w"] / r.choice([2, 16, 1024])
+                    z = (v["lower"] - dz) if r.random() < 0.5 else (v["upper"] + dz)
+                else:            # far outside
                     z = v["lower"] + r.choice([-1, 1]) * (span + r.randint(1, 24) * v["w"] / 8) + (span if r.random() < .5 else 0)
                 if v["periodic"] and r.random() < 0.4:
                     z += r.randint(-2, 2) * v["P"]
@@ -163,9 +166,10 @@ def gen_case(r, k, same=None, long_=False):
         steps.append({"z": zs, "e": es, "boundary": boundary})
         prev = zs
     if c["events"]:
-        for _ in range(r.choice([1, 1, 2])):
+        for _ in range(r.choice([1, 1, 2, 3])):
             t = r.randint(2, nsteps - 1)
-            steps[t]["event"] = {"kind": "restart" if r.random() < 0.65 else "reload", "fmt": r.choice(["text", "binary"])}
+            # fmt: the state goes through a text file, a binary file, a string (formatted) or a memory buffer (unformatted)
+            steps[t]["event"] = {"kind": "restart" if r.random() < 0.65 else "reload", "fmt": r.choice(["text", "binary", "str", "buf"])}
             # the first step after a load re-executes the configuration that was saved (Colvars refuses a value that
             # differs from the saved one by more than half a bin width)
             steps[t]["z"] = list(steps[t - 1]["z"])
@@ -442,12 +446,15 @@ def scenario(c):
         ev = st.get("event")
         if ev:
             # state file event before this step: save, (new instance with the same configuration,) load, dump
-            L.append("save %s %s.colvars.state" % (ev["fmt"], state_name(c, nev)))
+            L.append("save %s %s.colvars.state" % ("text" if ev["fmt"] in ("text", "str") else "binary", state_name(c, nev)))
             if ev["kind"] == "restart":
                 L.append("new")
                 L += config_lines(c)
                 cur_apply = c["apply"]
-            L += ["load %s" % state_name(c, nev), "echo LOADED", "dumpabf a"]
+            if ev["fmt"] in ("str", "buf"):
+                L += ["load%s %s.colvars.state" % (ev["fmt"], state_name(c, nev)), "echo LOADED", "dumpabf a"]
+            else:
+                L += ["load %s" % state_name(c, nev), "echo LOADED", "dumpabf a"]
             nev += 1
         L += emit_inputs(c, st, amap)
         if apply_at(c, st) != cur_apply:
@@ -471,7 +478,7 @@ def event_dataset(c, im, t, n):
     prev = im["steps"][t - 1]
     cnt = list(prev["cnt"])
     ev = c["steps"][t]["event"]
-    if ev["fmt"] == "text":
+    if ev["fmt"] in ("text", "str"):
         st = im.get("rstates", {}).get(n)
         if st is None:
             return None
